@@ -40,6 +40,7 @@ func propC16(p *Prog, r *Report) {
 	r.Assume = []string{"sync.Mutex.TryLock, context and channel semantics"}
 
 	c16Handoff(p, r)
+	c16FlagReleasedOnEveryExit(p, r, "C16.a")
 	c16BeforeRun(p, r)
 	c16StopOrder(p, r)
 	c16Registration(p, r)
